@@ -124,6 +124,13 @@ type SDRRecord struct {
 type BMC struct {
 	Log []Event
 
+	// ForceCC, when non-zero, replaces the completion code of every response; the response data stays
+	ForceCC uint8
+
+	// NextSessionID, when non-zero, is the managed system session ID given to the next session (then incremented);
+	// zero: random IDs
+	NextSessionID uint32
+
 	GUID               [16]byte
 	DeviceID           []byte // Get Device ID response data
 	ChassisStatus      []byte // Get Chassis Status response data
@@ -459,6 +466,10 @@ func (b *BMC) handleMessage(s *Session, m []byte, ev *Event) []byte {
 	default:
 		ev.CC, rsp = h(b, s, msg.RsLUN, clone(data))
 	}
+	if b.ForceCC != 0 {
+		// the genuine response data under another completion code (a BMC need not truncate a refused command's response)
+		ev.CC = b.ForceCC
+	}
 	ev.RspData = append(clone(echo), rsp...)
 	return b.response(msg, ev.CC, append(clone(echo), rsp...))
 }
@@ -533,6 +544,11 @@ func (b *BMC) handleOpenSession(p []byte, ev *Event) []byte {
 		ConsoleID: consoleID,
 		Auth:      alg[0], Integ: alg[1], Conf: alg[2],
 		openPriv: priv,
+	}
+	if b.NextSessionID != 0 && b.byID[b.NextSessionID] == nil {
+		// a BMC that numbers its sessions from a fixed value (many start at 1, the value the console uses too)
+		s.BMCID = b.NextSessionID
+		b.NextSessionID++
 	}
 	for s.BMCID == 0 || b.byID[s.BMCID] != nil {
 		s.BMCID = b.rng.Uint32()
